@@ -42,14 +42,26 @@ def _days_of_request(w):
     return n // 86400000000, n % 86400000000
 
 
+def _century_known_output(w):
+    """What the crate is KNOWN to return for round(century) on a year divisible by 100: the start of that year's own
+    century, (y-99)-01-01 (at 00:00:00 for timestamps)."""
+    d, _ = _days_of_request(w)
+    y = _year_of_days(d)
+    start = (datetime.date(y - 99, 1, 1) - datetime.date(1970, 1, 1)).days
+    return "ok %d" % (start if w[0].startswith("D.") else start * 86400000000)
+
+
 PREDICATES = {
-    # op + input predicate of each recorded finding
+    # op + input predicate of each recorded finding, and the crate output that IS the recorded finding
+    # (a different wrong output on the same input is a different violation and is reported)
     "round-century-year-divisible-by-100":
-        lambda w: w[0] in ("D.round", "TS.round", "OD.round") and w[1] == "century"
-        and _year_of_days(_days_of_request(w)[0]) % 100 == 0,
+        (lambda w: w[0] in ("D.round", "TS.round", "OD.round") and w[1] == "century"
+         and _year_of_days(_days_of_request(w)[0]) % 100 == 0,
+         lambda w, out: out == _century_known_output(w)),
     "round-sunday-week-before-min":
-        lambda w: w[0] in ("D.round", "TS.round", "OD.round") and w[1] == "sunday_start_week"
-        and (lambda d, t: d < -719162 + 2 or (d == -719162 + 2 and (t < 43200000000 or w[0] == "D.round")))(*_days_of_request(w)),
+        (lambda w: w[0] in ("D.round", "TS.round", "OD.round") and w[1] == "sunday_start_week"
+         and (lambda d, t: d < -719162 + 2 or (d == -719162 + 2 and (t < 43200000000 or w[0] == "D.round")))(*_days_of_request(w)),
+         lambda w, out: out == "err DateOutOfRange"),
 }
 
 
@@ -61,7 +73,7 @@ def match(kf, pid, request, crate_out):
             continue
         pred = PREDICATES.get(k.get("id"))
         try:
-            if pred and pred(w):
+            if pred and pred[0](w) and pred[1](w, crate_out):
                 return k
         except (ValueError, IndexError, OverflowError):
             pass
